@@ -3,5 +3,6 @@ CONSTANTS
   NMsgs = 4
   MaxOps = 2
   Buffers = {TRUE, FALSE}
+  Kinds = {"unbounded"}
   Depth = 10
 CONSTRAINT Emit
